@@ -774,7 +774,7 @@ pub fn run(opts: Opts) -> i32 {
          leftover (thorough: also 2 clients + 1 server, <=1 preemption); all interleavings at the file-system step hooks of acquire / stale cleanup / corrupt cleanup / meta write / release with <=2 \
          (quick) / <=3 (thorough; 2 for 3+ contenders) preemptions; after every execution a fresh sequential contender runs on the final files; then scenarios (a)-(d) again with EVERY file-system call of the \
          primitives (open, read, stat, link, rename, unlink, write, mkdir) as the scheduling points and crash points, under an LD_PRELOAD shim, with \
-         <=1 (quick) / <=2 (thorough) preemptions; \
+         <=1 (quick) / <=2 (thorough) preemptions; conformance part: four scenario traces (three servers at once on an empty store; authority killed, then a new server; orderly shutdown, then a new server; shutdown with a request in flight and a contender starting inside the drain) replayed against REAL `rip serve` processes, lock.json / meta.json / process liveness sampled every 10 ms; \
          state = distinct executed schedule",
     );
     report.assume("the server's private async recovery loop and the client's ensure_local_authority loop are restated branch by branch in the harness over the public primitives; pid reuse and clock skew are outside the model");
@@ -783,6 +783,12 @@ pub fn run(opts: Opts) -> i32 {
     crate::sched::install_hooks();
     if let Some(path) = &opts.replay {
         let case = crate::common::load_replay_case(path);
+        if case["harness"] == "c18.processes" {
+            rip_kernel::verif::clear();
+            *report.replay_case_slot() = Some(crate::common::normalise_case(&case));
+            crate::c18proc::run(&report);
+            return report.finish();
+        }
         if case["granularity"].as_str() == Some("system calls") {
             crate::common::run_workers(&report, vec![vec!["c18".into(), "--tier".into(), report.tier().as_str().into(), format!("sys={}", json!({"replay": path.to_string_lossy()}))]], 1, &shim_env());
         } else {
@@ -846,5 +852,9 @@ pub fn run(opts: Opts) -> i32 {
         .map(|(sc, b)| vec!["c18".to_string(), "--tier".into(), tier.as_str().into(), "--wall-cap".into(), format!("{}", report.opts.wall_cap_s), format!("sys={}", json!({"scenario": scenario_json(*sc), "bound": b}))])
         .collect();
     crate::common::run_workers(&report, jobs, 16, &shim_env());
+    // conformance part: scenario traces replayed against real `rip serve` processes (the loops the
+    // harness restates, run for real); no scheduler hooks
+    rip_kernel::verif::clear();
+    crate::c18proc::run(&report);
     report.finish()
 }
